@@ -457,10 +457,8 @@ func (t *treeModel) genOp(r *gen.RNG, roots []string) Op {
 }
 
 // relTarget returns the link text for a link at path p pointing to tgt (both
-// relative to the history dir). abs asks for an absolute-looking path through
-// the process working directory (the history dir is reached by a relative
-// path from there, so "absolute" means relative to cwd is not possible; a
-// relative text is always used, abs only changes its shape by a detour).
+// relative to the history dir): always a relative path, optionally spelled
+// with a leading "./".
 func relTarget(p, tgt string, detour bool) string {
 	rel, err := filepath.Rel(filepath.Dir(p), tgt)
 	if err != nil {
